@@ -148,6 +148,8 @@ def random_program(rng, *, max_cleanups=4, kinds=RAISE_KINDS, p_raise=0.35, feat
             p["upcall_su"] = False
         elif r < 0.16:
             p["upcall_td"] = False
+    if p.get("upcall_su", True) and p.get("upcall_td", True) and rng.random() < 0.06:
+        p["synthetic_module"] = rng.choice(["nofile", "unimported"])
     if "setup_returns" in feats and rng.random() < 0.15:
         p["setup_returns"] = rng.choice([1, "value", [0]])
     if "xfail_decor" in feats and rng.random() < 0.08:
